@@ -12,6 +12,7 @@ AL = "source/array_list.c"
 
 DECIDED = [
     "BOUND: every memcpy/memmove/memset and subscript of the array list (array_list.inl, array_list.c) stays inside the list's storage, the caller's element buffer or the fresh allocation, for all lengths, indices and element sizes (including index*item_size products near SIZE_MAX)",
+    "SEQ-LEN: at every non-failing return of push/pop (both ends), pop_front_n, erase, clear, set_at, copy, shrink_to_fit, ensure_capacity and the read accessors the length field equals the length of the specified result sequence (L+1, L-1, max(0, L-n), max(L, index+1), source length, unchanged) - NUM, all lengths",
     "RANGE: the five block-moving operations move exactly the byte range their sequence specification prescribes (push_front, pop_front_n, erase, set_at, copy)",
     "INV: length*item_size <= current_size at every return of every function that stores to length/current_size/data",
     "POST: aws_array_list_ensure_capacity success implies (index+1)*item_size <= current_size and the old contents copied before release; calc_necessary_size success implies *out = (index+1)*item_size",
@@ -60,6 +61,35 @@ def range_spec(fname, callee, num, st, D, S, n, entry):
     return None
 
 
+def _piece(st, a, b, lo, hi):
+    """max-like piecewise value: hi when the path knows a >= b, lo when it knows a < b"""
+    if entails(st, b - a):
+        return hi
+    if entails(st, a - b + 1):
+        return lo
+    return None
+
+
+# function -> (list parameter, expected length at a non-failing return); L0 = length at entry
+SEQ_LEN = {
+    "aws_array_list_push_back": ("list", lambda st, o, p: o("list", "length") + 1),
+    "aws_array_list_push_front": ("list", lambda st, o, p: o("list", "length") + 1),
+    "aws_array_list_pop_back": ("list", lambda st, o, p: o("list", "length") - 1),
+    "aws_array_list_pop_front": ("list", lambda st, o, p: o("list", "length") - 1),
+    "aws_array_list_erase": ("list", lambda st, o, p: o("list", "length") - 1),
+    "aws_array_list_clear": ("list", lambda st, o, p: Poly.const(0)),
+    "aws_array_list_pop_front_n": ("list", lambda st, o, p: _piece(st, p("n"), o("list", "length"), o("list", "length") - p("n"), Poly.const(0))),
+    "aws_array_list_set_at": ("list", lambda st, o, p: _piece(st, p("index") + 1, o("list", "length") + 1, o("list", "length"), p("index") + 1)),
+    "aws_array_list_copy": ("to", lambda st, o, p: o("from", "length")),
+    "aws_array_list_shrink_to_fit": ("list", lambda st, o, p: o("list", "length")),
+    "aws_array_list_ensure_capacity": ("list", lambda st, o, p: o("list", "length")),
+    "aws_array_list_get_at": ("list", lambda st, o, p: o("list", "length")),
+    "aws_array_list_get_at_ptr": ("list", lambda st, o, p: o("list", "length")),
+    "aws_array_list_front": ("list", lambda st, o, p: o("list", "length")),
+    "aws_array_list_back": ("list", lambda st, o, p: o("list", "length")),
+}
+
+
 def analyse(ctx, replace=None, only=None):
     R = ctx.R
     P = ctx.program([AL], "ship", replace=replace)
@@ -69,6 +99,7 @@ def analyse(ctx, replace=None, only=None):
     hooks = AwsHooks()
     n_ok = 0
     n_range = 0
+    n_seq = 0
     for f in fns:
         R.fn(f)
         if f.name in ("aws_array_list_is_valid",):
@@ -167,6 +198,32 @@ def analyse(ctx, replace=None, only=None):
                             changed.append("%s := %r" % (k, v))
                     R.check(not changed, "ATOMIC-FAIL", f.name, loc, "failure return with every list field at its entry value",
                             "a failure return is reached after modifying the list: %s (trail %s)" % (changed[:3], st.trail[-6:]))
+                # SEQ-LEN: the length field after each operation is the length of the sequence its specification yields
+                if fk != "fail" and f.name in SEQ_LEN:
+                    def orig_(pn, fld, st=st):
+                        p_ = st.env.get("v:" + pn)
+                        o_ = st.notes.get("orig", {}).get("(%r)->%s" % (p_, fld)) if p_ is not None else None
+                        return Poly.atom(o_) if o_ else (cur(num, st, pn, fld) if p_ is not None else None)
+                    pn, spec = SEQ_LEN[f.name]
+                    now = cur(num, st, pn, "length")
+                    want = spec(st, orig_, lambda name, st=st: st.env.get("v:" + name))
+                    n_seq += 1
+                    # validity of the list handed in (aws_array_list_is_valid): no storage means no elements
+                    s0 = st
+                    d0 = cur(num, st, pn, "data")
+                    if d0 is not None and entails(st, d0) and entails(st, -d0):
+                        s0 = st.copy()
+                        s0.add(orig_(pn, "length"))
+                        s0.add(-orig_(pn, "length"))
+                        if entails(s0, orig_(pn, "length") + 1):
+                            continue  # contradictory: this path needs a list with elements but no storage (not a valid list)
+                        if want is None:
+                            want = spec(s0, orig_, lambda name, st=st: st.env.get("v:" + name))
+                    if want is None:
+                        R.fail("SEQ-LEN", f.name, loc, "the length after the operation is not decided on a path (trail %s)" % st.trail[-5:])
+                    else:
+                        R.check(eq(s0, now, want), "SEQ-LEN", f.name, loc, "%s->length is the specified sequence length" % pn,
+                                "on a %s return %s->length is %r, the specified sequence has %r elements (trail %s)" % ("successful" if fk == "ok" else "normal", pn, now, want, st.trail[-5:]))
                 # POST: summaries used elsewhere are re-derived from the callee's own body
                 if f.name == "aws_array_list_ensure_capacity" and fk == "ok":
                     idx = st.env.get("v:index")
@@ -204,6 +261,7 @@ def analyse(ctx, replace=None, only=None):
                         ((curp - Poly.atom(it0) + tail) if (it0 and curp is not None) else None, sz0))
     R.require(n_ok >= 20, "only %d array-list bounds obligations discharged (confirmed: >= 24)" % n_ok)
     R.require(n_range >= 4, "only %d RANGE obligations generated" % n_range)
+    R.require(n_seq >= 12, "only %d SEQ-LEN return states checked" % n_seq)
     static_mode(R, fns)
     copy_rule(R, P)
     # ---------------------------------------------------------------- linked list
@@ -293,6 +351,7 @@ def copy_rule(R, P):
 
 
 MUTANTS = [
+    {"name": "copy-of-empty-keeps-old-length", "file": AL, "expect": "SEQ-LEN", "old": "            memcpy(to->data, from->data, copy_size);\n        }\n        to->length = from->length;", "new": "            memcpy(to->data, from->data, copy_size);\n            to->length = from->length;\n        }"},
     {"name": "ensure-capacity-compares-index", "file": AL, "expect": "POST",
      "old": "size_t new_size = next_allocation_size > necessary_size ? next_allocation_size : necessary_size;",
      "new": "size_t new_size = next_allocation_size > index ? next_allocation_size : necessary_size;"},
